@@ -44,7 +44,7 @@ def signatures(maxn):
     return out
 
 
-def make_fn(sig, log, ctx_mode, inj, is_method=False, is_async=False, nullable=False):
+def make_fn(sig, log, ctx_mode, inj, is_method=False, is_async=False, nullable=False, fielddef=False):
     """-> function; parameters: [self] [ctx first] a.. [ctx kw-only] [inj kw-only with default]"""
     parts = []
     if is_method:
@@ -61,7 +61,8 @@ def make_fn(sig, log, ctx_mode, inj, is_method=False, is_async=False, nullable=F
             parts.append('*')
             star = True
         ann = 'Optional[int]' if (nullable and i == 0) else 'int'
-        parts.append(NAMES[i] + (': %s = 7' % ann if dflt else ': %s' % ann))
+        # fielddef: the python default is a pydantic Field(...) object carrying the real default (an optional parameter all the same)
+        parts.append(NAMES[i] + ((': %s = Field(7, description="d")' % ann if fielddef else ': %s = 7' % ann) if dflt else ': %s' % ann))
     if ctx_mode == 'name':
         if not star:
             parts.append('*')
@@ -75,7 +76,8 @@ def make_fn(sig, log, ctx_mode, inj, is_method=False, is_async=False, nullable=F
     src = '%sdef f(%s):\n    _log.append(dict(%s))\n    return 1\n' % (
         'async ' if is_async else '', ', '.join(parts), ', '.join('%s=%s' % (n, n) for n in names))
     from typing import Optional
-    ns = {'_log': log, 'Annotated': Annotated, 'Inject': Inject, 'Optional': Optional}
+    import pydantic as _pd
+    ns = {'_log': log, 'Annotated': Annotated, 'Inject': Inject, 'Optional': Optional, 'Field': _pd.Field}
     exec(src, ns)
     return ns['f'], src
 
@@ -131,6 +133,8 @@ def gen_cases(ctx):
                         if sig and validator != 'pydantic-extra-ignore' and len(sig) <= 3:
                             # the first parameter is annotated Optional[int] (nullable, but still required when it has no default)
                             yield dict(sig=sig, ctx=ctx_mode, inj=inj, flavour=flavour, validator=validator, nullable=True)
+                        if validator == 'pydantic' and flavour == 'function' and any(d for _, d in sig) and len(sig) <= 3 and ctx_mode in ('none', 'name'):
+                            yield dict(sig=sig, ctx=ctx_mode, inj=inj, flavour=flavour, validator=validator, fielddef=True)
 
 
 NAME_PAIRS = [('user.get', 'user_get'), ('a_b', 'a.b'), ('getUser', 'get_user'), ('user.get', 'user.get_'), ('v1.get', 'v1get'),
@@ -212,7 +216,7 @@ def run_case(case, rec):
             V.f = fn
             d.registry.view(V, context='context')
         else:
-            fn, src = make_fn(sig, log, ctx_mode, inj, is_async=(disp == 'async'), nullable=bool(case.get('nullable')))
+            fn, src = make_fn(sig, log, ctx_mode, inj, is_async=(disp == 'async'), nullable=bool(case.get('nullable')), fielddef=bool(case.get('fielddef')))
             if validator:
                 fn = validator.validate(fn)
             kw = {}
@@ -359,7 +363,7 @@ def replay(doc):
     if 'names' in c:
         run_case(dict(names=c['names']), rec)
     else:
-        run_case(dict(sig=c['sig'], ctx=c['ctx'], inj=c['inj'], flavour=c['flavour'], validator=c.get('validator', 'base'), nullable=c.get('nullable', False)), rec)
+        run_case(dict(sig=c['sig'], ctx=c['ctx'], inj=c['inj'], flavour=c['flavour'], validator=c.get('validator', 'base'), nullable=c.get('nullable', False), fielddef=c.get('fielddef', False)), rec)
     for v in rec.violations[:5]:
         print('VIOLATION-REPLAY signature=%s\n  case=%s\n  expected=%s\n  observed=%s' % (
             v['signature'], jdump(v['case'])[:400], jdump(v['expected'])[:300], jdump(v['observed'])[:300]))
